@@ -8,3 +8,5 @@ CONSTANTS
   BugAckBeforeHandler = FALSE
   BugDeliverOnPublish = FALSE
   BugKeepAfterRelease = FALSE
+  AllowWriteFail = FALSE
+  BugCompBeforeHandover = FALSE
